@@ -25,10 +25,12 @@ MInit == /\ \E S \in SUBSET (1..Len(Keys)) : dicts = DictOf(S)
 MStart == phase = "idle" /\ \E t \in Texts : \E f \in [1..Len(t) -> BOOLEAN] : f[1] /\ Start(t, f)
 \* the fallback provider offers the single character at cur when nothing else was created (or always: both are explored)
 MOov == \E always \in BOOLEAN : (always \/ DictCands(cur) = {}) /\ oovIns = {} /\ InsOov(cur + 1, 0)
+MInsDict == \E c \in (IF cur >= 0 THEN DictCands(cur) ELSE {}) : InsDict(c[1], c[2], c[3])
+MInsOov == cur >= 0 /\ MOov
 MNext == \/ MStart
          \/ \E p \in 0..MaxLen : PosBegin(p)
-         \/ \E c \in (IF cur >= 0 THEN DictCands(cur) ELSE {}) : InsDict(c[1], c[2], c[3])
-         \/ (cur >= 0 /\ MOov)
+         \/ MInsDict
+         \/ MInsOov
          \/ PosDone \/ GiveUp
          \/ \E ok \in BOOLEAN : Close(ok)
 MSpec == MInit /\ [][MNext]_avars
